@@ -32,7 +32,8 @@ def _seq_of_max_and_step_to_quat(rotations: RangeLike | Ranges) -> NDArray[np.fl
         if step == 0:
             angles.append(np.zeros(1))
         else:
-            n = int(max_rot / step)
+            # NOTE: e.g. 1.2 / 0.4 = 2.9999999999999996
+            n = int(np.floor(max_rot / step + 1e-9))
             angles.append(np.linspace(-n * step, n * step, 2 * n + 1))
 
     _quat: list[NDArray[np.float32]] = []
